@@ -14,6 +14,9 @@ def run(chk):
         # the saved session also has to survive the run command: whatever point of start-up or
         # shutdown an interrupt hits, the state file afterwards still holds the session (shared
         # stage of the Actors area, real RootCommand.run)
+        import core_reorder
+
+        core_reorder.run_stage(chk, "C10")
         import c18_shared
 
         n = c18_shared.saved_session_survives_interrupted_start(chk, prop="C10")
